@@ -184,14 +184,21 @@ class EvqRun:
         elif kind == 'run':
             if nested:
                 return
-            self.do_run(op[1])
+            self.do_run(op[1], traced=len(op) > 2 and op[2] == 'trace')
 
-    def do_run(self, d):
+    def do_run(self, d, traced=False):
         env = self.env
         qm = self.qm
         t0 = env.now
         n0 = len(self.exec_log)
-        env.run(d)
+        if traced:
+            # run(d, trace=True): the same run, with the executed events listed and exported afterwards
+            # (~/Downloads/<name>_trace.json; HOME points at a scratch directory meanwhile)
+            with scratch_home():
+                env.run(d, trace=True)
+            self.sh.count('traced_runs')
+        else:
+            env.run(d)
         self.sh.count('runs')
         if qm.dead:
             return
@@ -223,6 +230,32 @@ class EvqRun:
         qm = self.qm
         return {'tie_groups': qm.tie_groups, 'nested': qm.nested_insertions,
                 'shifted': qm.shifted_resumes, 'nonzero_resumes': qm.nonzero_resumes}
+
+
+_HOME = [None]
+
+
+class scratch_home:
+    """HOME redirected to a per-process scratch directory that has a Downloads folder (removed at exit)."""
+
+    def __enter__(self):
+        import atexit
+        import os
+        import shutil
+        import tempfile
+        if _HOME[0] is None:
+            _HOME[0] = tempfile.mkdtemp(prefix='simmon_home_', dir='/tmp')
+            os.makedirs(os.path.join(_HOME[0], 'Downloads'))
+            atexit.register(shutil.rmtree, _HOME[0], True)
+        self.old = os.environ.get('HOME')
+        os.environ['HOME'] = _HOME[0]
+
+    def __exit__(self, *a):
+        import os
+        if self.old is None:
+            os.environ.pop('HOME', None)
+        else:
+            os.environ['HOME'] = self.old
 
 
 # ---------------------------------------------------------------------------
@@ -364,6 +397,11 @@ def random_ops(rng, decimal=False, pause_centric=False, aim_pauses=False, bigint
     ops.append(['run', rng.choice(grid[3:])])
     if mass:
         ops.append(['run', 60 * max(x for x in grid if x)])       # long enough for every resumed event
+    if rng.random() < 0.2:
+        # some of the runs are traced (run(d, trace=True)): the same window, the same order
+        for op in ops:
+            if op[0] == 'run' and len(op) == 2 and rng.random() < 0.5:
+                op.append('trace')
     return ops
 
 
